@@ -8,6 +8,7 @@ import (
 	"github.com/jrhy/mast"
 	"pgregory.net/rapid"
 	"verif/harness/core"
+	"verif/harness/env"
 	"verif/harness/ref"
 	"verif/harness/run"
 )
@@ -26,6 +27,8 @@ type C15Case struct {
 	// WriterCache: the versions were written through a node cache; one side of the diff is opened through
 	// that (warm) cache, the other side without any cache (e.g. another process)
 	WriterCache bool `json:"writer_cache,omitempty"`
+	// Alias: the new version is opened through a second handle on the same store that reports another NodeURLPrefix
+	Alias bool `json:"alias,omitempty"`
 }
 
 func genC15(t *rapid.T, tier string) C15Case {
@@ -39,6 +42,7 @@ func genC15(t *rapid.T, tier string) C15Case {
 	if c.Pair.Cfg.Cache != "none" {
 		c.WriterCache, c.ColdCache = true, false
 	}
+	c.Alias = rapid.IntRange(0, 4).Draw(t, "alias") == 0
 	return c
 }
 
@@ -68,7 +72,7 @@ func enumC15(tier string, shard, nshards int, yield func(C15Case) bool) (bool, s
 				for j := 0; j <= r%5; j++ {
 					ch = append(ch, (r*7919+j*104729+n/3)%(n+n/2))
 				}
-				if !yield(C15Case{Big: n, BigBF: bf, Changes: ch, ColdCache: r%3 == 2, WriterCache: r%3 == 1}) {
+				if !yield(C15Case{Big: n, BigBF: bf, Changes: ch, ColdCache: r%3 == 2, WriterCache: r%3 == 1, Alias: r%3 == 0 && (n/100+r)%2 == 1}) {
 					return false, ""
 				}
 			}
@@ -243,7 +247,11 @@ func runC15(c C15Case, o *run.Obs) error {
 			cOld, cNew = nil, wNew.Cache // the new side through the writer's warm cache, the old side decoded from the store
 		}
 		a, err1 := w.Load(oldSR, nil, cOld, false)
-		b, err2 := wNew.Load(newSR, nil, cNew, false)
+		var newStore mast.Persist
+		if c.Alias && wNew == w {
+			newStore = env.AliasStore{RecStore: w.Store, AliasPrefix: w.Store.Prefix + "/./"}
+		}
+		b, err2 := wNew.Load(newSR, newStore, cNew, false)
 		return a, b, err1 == nil && err2 == nil
 	}
 	bound := 2*d + 2
